@@ -14,6 +14,8 @@ TRUSTED_BASE = [
 HISTORY_TAGS = {
     71: (4, 4),
     80: (0, 4),
+    100: (6, 4),
+    110: (0, 4),
 }
 
 PROPS = {
@@ -31,6 +33,27 @@ PROPS = {
         "assumptions": ["feeds use valid short messages"],
     },
 }
+
+PROPS.update({
+    "C09": {
+        "runs": [("C09", "std", "normal")],
+        "rule": "tag 90: for each of the 8 constructors and both byte orders: all 16 channels, a sweep of the parameter numbers (thorough: all 16384) and of the values with the other arguments on boundary/seeded values, plus seeded random tuples; observation = getters, 4 slots for RawShortMessage and StructuredShortMessage, and the array conversion. distinct = distinct argument tuples; every record is non-trivial (a message is always built)",
+        "exhaustive": {},
+        "assumptions": ["arguments are valid restricted integers (built through the checked constructors)"],
+    },
+    "C10": {
+        "runs": [("C10", "std", "normal")],
+        "rule": "tag 100: seeded messages of all 8 kinds, encoded (7-bit: both orders; 14-bit: LSB first) and fed, as any implementor kind, after a seeded random prior history; tag 101: running forms (single data bytes on controller 6/96/97, or LSB,MSB pairs) of length 0-12 and seeded long ones (200-500) after one selection and a random prior history",
+        "exhaustive": {},
+        "assumptions": ["feeds use valid short messages"],
+    },
+    "C11": {
+        "runs": [("C11", "std", "normal")],
+        "rule": "tag 110: all histories of depth 4 (thorough: 5) over a 14-symbol abstract alphabet (each of the 8 contributing controllers, a non-contributing controller, a non-CC message, a second channel, reset, a system message) plus seeded random histories over the full alphabet on 1-16 channels; non-trivial = at least one report",
+        "exhaustive": {},
+        "assumptions": ["feeds use valid short messages"],
+    },
+})
 
 HOOK_COMMITS = ["8ffd056"]
 NOT_YET = {}
